@@ -137,7 +137,7 @@ Definition ares_res (source : text) (a : ares) : res :=
 
 (* the native `read` after validation *)
 Definition read_result (input source : val) (line col : Z) : res :=
-  if (line <? 0)%Z || (col <? 1)%Z then RPanic "read: start position out of range (usize arithmetic)" else
+  if (line <? 0)%Z || (col <? 1)%Z then RSig (make_error "wrong-arg-value" (s "read") []) else
   let src := match list_to_string source with
              | Some p => Some (SrcFile p)
              | None => if is_sym source (s "prelude") then Some SrcPrelude
@@ -208,6 +208,19 @@ Definition make_function_internal (args : list val) (env : val) (envmod : text) 
 
 (* natives that do not call back into the evaluator; arguments already validated against the
    generated signature.  None = not one of these. *)
+(* send: walks the property list two by two; a lone last key is an invalid property list *)
+Fixpoint send_walk (name : text) (l : list val) : res :=
+  match l with
+  | [] => ROk sym_ok
+  | k :: r => match getv k with
+              | VSym _ => match r with
+                          | _ :: r' => send_walk name r'
+                          | [] => RSig (make_error "invalid-plist" name [("symbol", vsym "data")])
+                          end
+              | _ => RSig (make_error "invalid-plist" name [("symbol", vsym "data")])
+              end
+  end.
+
 (* answers of a scripted debugger to [receive]: the entries of [inject] with key 0, in order; the
    last one is never used up *)
 Fixpoint has_answer (inj : list (N * text)) : bool :=
@@ -411,19 +424,7 @@ Definition simple_native (st : state) (name : text) (args : list val) (d : N) : 
     match args with
     | [data] =>
       match list_to_vec data with
-      | Some l =>
-        let go := fix go (l : list val) : res :=
-                    match l with
-                    | [] => ROk sym_ok
-                    | k :: r => match getv k with
-                                | VSym _ => match r with
-                                            | _ :: r' => go r'
-                                            | [] => RPanic "send: index out of bounds on an odd property list (d[1])"
-                                            end
-                                | _ => RSig (make_error "invalid-plist" name [("symbol", vsym "data")])
-                                end
-                    end in
-        Some (st, go l)
+      | Some l => Some (st, send_walk name l)
       | None => bad
       end
     | _ => bad
